@@ -205,6 +205,10 @@ fn one(w: &mut World, i: usize, st: &Step, c: &mut Counters) -> Result<Option<(u
                     if untrusted(st) && matches!(label.as_str(), "some" | "ok" | "key_ok" | "sig_ok") && !p.contains(&"C15".to_string()) {
                         p.push("C15".into());
                     }
+                    // the signer's verification wrappers are verification paths too (C09)
+                    if (label.starts_with("wrapper_") || label == "self_verify") && !p.contains(&"C09".to_string()) {
+                        p.push("C09".into());
+                    }
                     Err(Violation { props: p, step: i, step_kind: st.kind().into(), class: class_of(st, &label), detail: d })
                 }
             }
